@@ -91,7 +91,10 @@ func NewHTTPReverseProxy(option HTTPReverseProxyOptions, vhostRouter *Routers) *
 					req.Header.Set(k, v)
 				}
 			} else {
-				req.URL.Host = req.Host
+				// No route: the request must fail in DialContext. Never let the client's Host header be the
+				// transport's connection-pool key, or a Host spelled like a route's key above would reuse that
+				// route's idle backend connection without any route lookup or credential check.
+				req.URL.Host = "no-route.invalid"
 			}
 		},
 		ModifyResponse: func(r *http.Response) error {
